@@ -19,6 +19,7 @@ MKINDS = ["sig", "port", "inst", "array", "pair", "binst"]
 FORMS = ["setattr", "add_named", "add_name_arg"]
 BANNED_M = ["ports", "signals", "instances", "instarrays", "instbundles", "bundles", "literals", "props", "namespace", "add", "get"]
 BKINDS = ["sig", "port", "binst"]
+DIRKINDS = {"sigdir": "sig", "portdir": "port"}  # signals that carry a direction are filed by their visibility alone
 BANNED_B = ["signals", "bundles", "namespace"]
 
 
@@ -27,6 +28,10 @@ def mk_value(h, env, kind):
         return h.Signal(width=2)
     if kind == "port":
         return h.Port(width=2)
+    if kind == "sigdir":  # an internal signal that carries a direction: still an internal signal
+        return h.Signal(width=2, direction=h.signal.PortDir.OUTPUT)
+    if kind == "portdir":
+        return h.Input(width=2)
     if kind == "inst":
         return h.Instance(of=env["leaf"])(p=env["z"])
     if kind == "array":
@@ -167,7 +172,7 @@ def _history(hist):
         if op[1] == "flip":
             model[op[0]] = {"sig": "port", "port": "sig"}[model[op[0]]]
         if op[1] not in ("same", "flip"):
-            model[op[0]] = op[1]
+            model[op[0]] = DIRKINDS.get(op[1], op[1])
             objs[op[0]] = v
         elif v is not objs[op[0]]:
             return ("re-storing an object returned another one", step, model)
@@ -619,7 +624,7 @@ def enabled(hist):
                 return False
             held[n] = {"sig": "port", "port": "sig"}[held[n]]
         elif k != "same":
-            held[n] = k
+            held[n] = DIRKINDS.get(k, k)
     return True
 
 
@@ -656,7 +661,8 @@ def run(ctx):
     ctx.fam("module_bfs_merged", states=len(seen), transitions=transitions, depth_reached=depth)
     # (2) un-merged: all histories of length <= 2 (3 thorough)
     L = 2 if ctx.quick else 3
-    items = [list(c) for n in range(1, L + 1) for c in itertools.product(ops, repeat=n) if enabled(c)]
+    ops2 = ops + [(n, k, f) for n in NAMES for k in DIRKINDS for f in FORMS]
+    items = [list(c) for n in range(1, L + 1) for c in itertools.product(ops2, repeat=n) if enabled(c)]
     res = ctx.pmap(_history, items, chunk=100)
     for hist, (prob, step, model) in zip(items, res):
         ctx.count(states=1, transitions=len(hist) + 1, traces_validated_against_impl=1)
